@@ -814,7 +814,13 @@ func integer(sign int64, s string) (Integer, error) {
 }
 
 func float(sign float64, s string) (Float, error) {
-	bf, _, _ := big.ParseFloat(s, 10, 0, big.ToZero)
+	bf, _, err := big.ParseFloat(s, 10, 0, big.ToZero)
+	if err != nil {
+		// The exponent is beyond what big.Float represents. strconv saturates such literals to 0 or Inf,
+		// which is what smaller out-of-range exponents like 1.0e400 or 1.0e-400 yield below.
+		f, _ := strconv.ParseFloat(s, 64)
+		return Float(sign * f), nil
+	}
 	bf.Mul(big.NewFloat(sign), bf)
 
 	f, _ := bf.Float64()
